@@ -149,3 +149,30 @@ Definition join_native_svg (j : joiner) : option (Z * option Q) :=
   | JArcs _ (Some l) => Some (3%Z, Some l)
   | _ => join_native j
   end.
+
+(** the stroke the SVG back-end requests natively (svg.go RenderPath): as [native_stroke] with the SVG set of joins *)
+Definition native_stroke_svg (d : draw) : option (Q * Z * Z * option Q * Q * list Q) :=
+  match join_native_svg (sJoin (dS d)) with
+  | Some (j, ml) =>
+      if dSim d then
+        let w := Qred (sWidth (dS d) * dK d) in
+        let '(off, ds) := scale_dash w (sOff (dS d)) (sDashes (dS d)) in
+        Some (w, sCap (dS d), j, match ml with Some l => Some (Qred l) | None => None end, off, ds)
+      else None
+  | None => None
+  end.
+
+(** what the drawing asks of the SVG: the fill, then the stroke with its parameters in target space, or (fallback) the
+    filled outline; the outline element repeats the fill rule of the style (the outline is a settled path: either rule
+    fills the same region) *)
+Definition svg_spec (d : draw) : list pop :=
+  let s := dS d in
+  (if has_fill s then [mkPop (KFill (sEvenOdd s)) (dGeo d) (paint_col (sFill s)) (paint_alpha (sFill s))] else []) ++
+  (if has_stroke s then
+     match native_stroke_svg d with
+     | Some (w, c, j, ml, off, ds) =>
+         [mkPop (KStroke false w c j (if ((j =? 0) || (j =? 3))%Z then match ml with Some l => l | None => 0 end else 0) ds off)
+                (dGeo d) (paint_col (sStroke s)) (paint_alpha (sStroke s))]
+     | None => [mkPop (KFill (sEvenOdd s)) (dOutline d) (paint_col (sStroke s)) (paint_alpha (sStroke s))]
+     end
+   else []).
